@@ -4,6 +4,7 @@ import CssVerif.Lemmas.TokDet
 import CssVerif.Lemmas.TokAppend
 import CssVerif.Lemmas.TokLex2Sep
 import CssVerif.Lemmas.TokStrItems
+import CssVerif.Lemmas.TokIdentU
 import CssVerif.Lemmas.TokFull
 import CssVerif.Lemmas.TokLex2Full
 import CssVerif.Lemmas.TokPush
@@ -357,7 +358,7 @@ example : expected [Lex.pct 53 [48], .dim 49 [] 112 [120], .hash 102 [48, 48]] =
 
 `Lex2` (Lemmas/TokLex2Sep.lean) adds to `Lex`: STRING (quote `"` or `'`, a body without backslash, line break or the
 delimiter — the other quote may occur —, the same quote; `strI`: ANY body made of string items, with escapes and line
-continuations, value = `stringValue`), IDENT with one or two leading hyphens, URI in quoted form (`uriQ`: `url(` white
+continuations, value = `stringValue`), IDENT with one or two leading hyphens or starting with `u` / `U`, URI in quoted form (`uriQ`: `url(` white
 space? string white space? `)`, value = `stringValue`), FUNCTION (plain identifier other than `and` in any letter
 case, `(`), URI (`url(` in any letter case, an unquoted body of printable ASCII other than quotes, `)`, backslash and
 white space, `)`), UNICODE-RANGE (`U+`/`u+`, one to six hex digits or `?`), COMMENT (`/*`, any body in which no `*/` ends,
@@ -365,7 +366,7 @@ white space, `)`), UNICODE-RANGE (`U+`/`u+`, one to six hex digits or `?`), COMM
 neighbours; a COMMENT token is not yielded when comments are off. S (any run of white space) and INVALID (which a
 space does not end) have class theorems of their own.
 Still on the classification oracle only: names with escapes or non-ASCII code points, signed / fractional numbers,
-identifiers that start with `u`, `U`, unquoted URLs with escapes, UNICODE-RANGE intervals. -/
+unquoted URLs with escapes, UNICODE-RANGE intervals. -/
 
 /-- **T5.6 for all token classes** (plain lexemes): a text produced from grammar tokens of the classes NUMBER,
 PERCENTAGE, DIMENSION, HASH, IDENT, ATKEYWORD incl. the reserved at-rules, the match operators, CDO, CDC, the
@@ -402,6 +403,12 @@ theorem function_dash_class (doC : Bool) (n : Nat) (hn : n = 1 ∨ n = 2) (c : N
 
 example : (tokenize [45, 109, 111, 122, 45, 99, 40, 49, 41] false true).tokens.map proj =
     [("FUNCTION", [45, 109, 111, 122, 45, 99, 40]), ("NUMBER", [49]), ("CHAR", [41])] := by decide +kernel
+
+/-- IDENT that starts with `u` / `U` (`underline`, `url` without parenthesis), followed by the end of the text or a
+space: URI and UNICODE-RANGE, which start with the same letter, do not match -/
+theorem ident_u_class (doC : Bool) (u : Nat) (hu : IsU u) (cs stop : Cps) (hcs : ∀ x ∈ cs, inR identRest x = true)
+    (hs : Sep stop) : scan false doC (u :: cs ++ stop) productions = .hit "IDENT" (u :: cs).length :=
+  scan_ident_u doC u hu cs stop hcs hs
 
 /-- S: a run of white space (tab, CR, LF, FF, space) up to the end of the text or a code point that is not white
 space -/
